@@ -9,7 +9,7 @@ Sides compared on every case (graph S as CSR pattern, caller weights k/1024, con
                                                 every rank's off_proc_states == the owners' labels;
                                                 distributed CLJP / PMIS labels of non-isolated points == sequential model labels.
 """
-import itertools, os
+import itertools, os, subprocess
 import framework as fw
 
 ID = "C13"
@@ -314,15 +314,20 @@ def run(ctx):
     for c in cases:
         np_ = 1 if c.kind == "seq" else len(c.part)
         groups.setdefault(np_, []).append(c.line)
+    hang_seen = False
     for np_, lines in sorted(groups.items()):
         # node-aware communicators need np to be a multiple of PPN (raptor's Topology); vary the node shape
         ppn = ctx.rng.choice([d for d in (1, 2, 3, 4) if np_ % d == 0])
         ctx.count("np%d_ppn%d" % (np_, ppn))
         # a launch normally takes seconds (quick) / a few minutes (thorough); a hang (ranks disagreeing on a conditional
-        # exchange never finish) is cut off, reported for the first case without output, and the rest is re-run
+        # exchange never finish) is cut off, reported for the first case without output, and the rest is re-run once
         res, crashed = fw.run_impl_lines(ctx, "drv_split", lines, nprocs=np_, env={"PPN": str(ppn)}, name="c13_np%d" % np_,
-                                         timeout=ctx.scale(60, 900), max_restarts=3)
+                                         timeout=ctx.scale(40, 900), max_restarts=0 if hang_seen else 1)
+        if crashed:
+            hang_seen = True
+            subprocess.run(["pkill", "-9", "-f", ctx.tmp], capture_output=True)   # orphaned ranks of a killed mpirun
         impl.update(res)
+    if hang_seen: subprocess.run(["pkill", "-9", "-f", ctx.tmp], capture_output=True)
     # ---- model: same cases + sequential companions of the distributed CLJP/PMIS cases
     mlines = [c.line for c in cases]
     for c in cases:
